@@ -373,4 +373,43 @@ def expiredAt : List String := [
   "return pin.ExpireAt.Before(t)"
 ]
 
+/-- Cluster.cidsFromMetaPin -/
+def cidsFromMetaPin : List String := [
+  "cState, err := c.consensus.State(ctx)",
+  "if err != nil {",
+  "return nil, err",
+  "}",
+  "list := []cid.Cid{h}",
+  "pin, err := cState.Get(ctx, h)",
+  "if err != nil {",
+  "return nil, err",
+  "}",
+  "if pin == nil {",
+  "return list, nil",
+  "}",
+  "if pin.Type != api.MetaType {",
+  "return list, nil",
+  "}",
+  "if pin.Reference == nil {",
+  "return nil, errors.New(S)",
+  "}",
+  "list = append([]cid.Cid{*pin.Reference}, list...)",
+  "clusterDagPin, err := c.PinGet(ctx, *pin.Reference)",
+  "if err != nil {",
+  "return list, fmt.Errorf(S, err)",
+  "}",
+  "clusterDagBlock, err := c.ipfs.BlockGet(ctx, clusterDagPin.Cid)",
+  "if err != nil {",
+  "return list, fmt.Errorf(S, err)",
+  "}",
+  "clusterDagNode, err := sharding.CborDataToNode(clusterDagBlock, S)",
+  "if err != nil {",
+  "return list, fmt.Errorf(S, err)",
+  "}",
+  "for _, l := range clusterDagNode.Links() {",
+  "list = append([]cid.Cid{l.Cid}, list...)",
+  "}",
+  "return list, nil"
+]
+
 end CV.C04.Expected
